@@ -415,6 +415,9 @@ func init() {
 	}})
 	ctl("integer conversion trusts the wire value to be non-nil", "P-NIL-REFLECT", "OvsToNativeAtomic|method on reflect.TypeOf", "ovsdb", "", "OvsToNativeAtomic", kExpr, "ovsElem == nil || !reflect.TypeOf(ovsElem).ConvertibleTo(naType)", 0, to("!reflect.TypeOf(ovsElem).ConvertibleTo(naType)"))
 	ctl("insert no longer refuses a uuid in use", "T-UUIDFREE", "Transaction).Insert|uuid checked to be free", "database/transaction", "Transaction", "Insert", kExpr, "inUse", 3, to("false"))
+	ctl("merge overwrites the first old value on a later update", "M-OLD", "updates.merge|assignment of the accumulator's old", "updates", "", "merge", kStmt, "a.new = b.new", 1, to("a.old = b.old\na.new = b.new"))
+	ctl("merge keeps an intermediate value as the new one", "M-NEW", "updates.merge|assignment of the accumulator's new", "updates", "", "merge", kStmt, "a.new = b.new", 1, to("a.new = b.old"))
+	ctl("addUpdate stores empty updates", "M-DROP", "addUpdate|entry stored only when not empty", "updates", "ModelUpdates", "addUpdate", kExpr, "!update.isEmpty()", 0, to("true"))
 	ctl("lock taken before waiting for the handlers", "L-WAIT", "handleDisconnectNotification|WaitGroup.Wait", "client", "ovsdbClient", "handleDisconnectNotification", kStmt, "o.handlerShutdown.Wait()", 0, to("o.shutdownMutex.Lock()\no.handlerShutdown.Wait()\no.shutdownMutex.Unlock()"))
 	ctl("transact accepts an empty operation list", "G-ARGS", "at least one operation", "server", "OvsdbServer", "Transact", kExpr, "len(args) < 2", 0, to("len(args) < 1"))
 	ctl("delete-by-keys special case for every column", "P-NIL-TYPEOBJ", "addMutateOperation|deref", "updates", "ModelUpdates", "addMutateOperation", kExpr, `mutation.Mutator == "delete" && column.Type == ovsdb.TypeMap && reflect.TypeOf(mutation.Value) != reflect.TypeOf(ovsdb.OvsMap{})`, 0, to(`mutation.Mutator == "delete" && reflect.TypeOf(mutation.Value) != reflect.TypeOf(ovsdb.OvsMap{})`))
